@@ -1,3 +1,102 @@
-import Rustemo.Model.Cert
+import Rustemo.Proofs.TLR
+import Rustemo.Props.Example
+/-!
+# C01 — a deterministic LR parser accepts exactly the language of its grammar
+
+`tparse` (Model/Core.lean) is the LR stack machine of `LRParser::parse_with_context` fed from a token
+list the way rustemo's context-aware lexer feeds it when terminals cannot be confused with each other
+(distinct single-character recognizers): the next token is offered iff the current state has an
+action for it, and lexing is redone after every reduction.  The byte-level model `LR.parse` refines
+the same core (`Proofs/Refine.lean`); the remaining step "string lexer on such terminals = this lexing
+rule" is validated by running `tparse` next to `LR.parse` and the real parser on every generated input
+(it is not a theorem yet).
+
+`Cert.c01` = structural + completeness (lookahead post-fixpoint incl. a verified FIRST/nullable
+post-fixpoint, reduce entries for every lookahead, every cell at most one action) + accept only on STOP.
+It is executed by the driver on the table dumped from the real compiler, for LALR and LALR_PAGER.
+A table that passes has no cell with two candidates — "no disambiguation took effect".
+-/
 namespace Rustemo.Props.C01
+open Rustemo
+
+def certC01 (g : Grammar) (t : Table) : Bool :=
+  Cert.structural g t (autosOf g t) && Cert.complete g t && Cert.acceptStop t
+
+theorem acceptStop_sound (t : Table) (h : Cert.acceptStop t = true) :
+    ∀ s a, Action.accept ∈ t.cell s a → a = 0 := by
+  intro s a hm
+  obtain ⟨st, hst, hm'⟩ := mem_cell hm
+  have := forStates_spec h hst
+  have := forCells_spec this hm'
+  simpa using this
+
+/-- **Soundness**: whatever is accepted is a sentence, and the tree returned is a derivation tree of
+    exactly the input. -/
+theorem C01_accepted_is_sentence (g : Grammar) (t : Table) (hcert : certC01 g t = true)
+    (w : List Nat) (hnz : ∀ x ∈ w, x ≠ 0) (fuel : Nat) (tr : Tree)
+    (h : tparse g t w fuel = .accept tr) : tr.Valid g g.startIdx ∧ tr.yield = w := by
+  unfold certC01 at hcert
+  simp only [Bool.and_eq_true] at hcert
+  obtain ⟨⟨hs, _⟩, ha⟩ := hcert
+  exact trun_sound g t (autosOf g t) (Cert.structural_sound _ _ _ hs) ⟨0, 0, g.startIdx⟩
+    (by unfold autosOf; exact List.mem_cons_self) rfl (acceptStop_sound t ha) w hnz fuel _ tr
+    ⟨cinv_init g t 0, by simp⟩ h
+
+/-- **Completeness**: every sentence is accepted, and the parser returns its derivation tree. -/
+theorem C01_sentence_is_accepted (g : Grammar) (t : Table) (hcert : certC01 g t = true)
+    (tx : Tree) (hv : tx.Valid g g.startIdx) :
+    ∃ fuel, tparse g t tx.yield fuel = .accept tx.plain := by
+  unfold certC01 at hcert
+  simp only [Bool.and_eq_true] at hcert
+  obtain ⟨⟨hs, hc⟩, _⟩ := hcert
+  obtain ⟨hC, hW⟩ := Cert.complete_sound g t hc
+  exact tparse_complete g t hW hC (Cert.structural_sound _ _ _ hs).item_prod tx hv
+
+/-- **C01**: Ok if and only if the input is a sentence of the grammar. -/
+theorem C01_lr_accepts_exactly (g : Grammar) (t : Table) (hcert : certC01 g t = true)
+    (w : List Nat) (hnz : ∀ x ∈ w, x ≠ 0) :
+    (∃ fuel tr, tparse g t w fuel = .accept tr) ↔ Sentence g w := by
+  constructor
+  · intro ⟨fuel, tr, h⟩
+    exact ⟨tr, C01_accepted_is_sentence g t hcert w hnz fuel tr h⟩
+  · intro ⟨tx, hv, hy⟩
+    obtain ⟨fuel, h⟩ := C01_sentence_is_accepted g t hcert tx hv
+    exact ⟨fuel, tx.plain, by rw [← hy]; exact h⟩
+
+theorem trun_mono (g : Grammar) (t : Table) : ∀ (n : Nat) (c : TCfg) (tr : Tree),
+    trun g t n c = .accept tr → ∀ k, trun g t (n + k) c = .accept tr := by
+  intro n
+  induction n with
+  | zero => intro c tr h; simp [trun] at h
+  | succ n ih =>
+    intro c tr h k
+    have : n + 1 + k = (n + k) + 1 := by omega
+    rw [this]
+    unfold trun at h ⊢
+    split at h
+    · rename_i c' hstep
+      exact ih c' tr h k
+    · rename_i tr' hstep
+      exact h
+    · simp at h
+    · simp at h
+
+/-- **A grammar whose table is certified deterministic is unambiguous**: two derivation trees of the
+    same input from the start symbol are the same tree (up to decorations). -/
+theorem C01_deterministic_is_unambiguous (g : Grammar) (t : Table) (hcert : certC01 g t = true)
+    (t1 t2 : Tree) (h1 : t1.Valid g g.startIdx) (h2 : t2.Valid g g.startIdx)
+    (hy : t1.yield = t2.yield) : t1.plain = t2.plain := by
+  obtain ⟨f1, e1⟩ := C01_sentence_is_accepted g t hcert t1 h1
+  obtain ⟨f2, e2⟩ := C01_sentence_is_accepted g t hcert t2 h2
+  rw [hy] at e1
+  unfold tparse at e1 e2
+  have a1 := trun_mono g t f1 _ _ e1 f2
+  have a2 := trun_mono g t f2 _ _ e2 f1
+  rw [Nat.add_comm] at a2
+  rw [a1] at a2
+  injection a2
+
+/-- non-vacuity: the hand-compiled table of `S: 'a' S | EMPTY` passes the whole certificate -/
+example : certC01 Example.g Example.t = true := by decide
+
 end Rustemo.Props.C01
